@@ -98,6 +98,7 @@ func tid(t types.Type) string {
 	if t == nil {
 		return ""
 	}
+	t = types.Unalias(t)
 	id := types.TypeString(t, nil)
 	if _, ok := out.Types[id]; ok {
 		return id
@@ -156,10 +157,6 @@ func tid(t types.Type) string {
 		d.Kind = "named"
 		d.Name = id
 		d.Under = tid(tt.Underlying())
-	case *types.Alias:
-		d.Kind = "named"
-		d.Name = id
-		d.Under = tid(types.Unalias(tt).Underlying())
 	case *types.Interface:
 		d.Kind = "interface"
 	case *types.Tuple:
